@@ -36,7 +36,11 @@ CONSTANTS Keys,        \* keys of the shared namespace
           GetModes,    \* subset of {"set", "only", "nil"}: setFunc given / nil setFunc / setFunc returning nil
           Ops,         \* subset of {"delete", "evict", "evictall", "setcap", "close", "closeforce"}
           RecheckRef,  \* TRUE as coded: mBucket.delete re-checks ref == 0 under the bucket lock
-          AtomicFin    \* TRUE: Node.callFinalizer takes-and-clears the value in one step (see CacheAsCoded.cfg)
+          AtomicFin,   \* FALSE as coded: Node.callFinalizer reads n.value, calls Release, then clears it, with no lock
+          RecheckClosed, \* FALSE as coded: on a closed cache unRefExternal calls the finaliser without re-checking ref
+          CloseExcl    \* environment assumption (TRUE in the configurations that must hold as coded): Close is not
+                       \* called while a Handle.Release is between its decrement and its delete step, and no
+                       \* Handle.Release / SetCapacity runs while a force Close is enumerating the nodes
 
 VARIABLES
   \* ---- observable layer
@@ -155,6 +159,7 @@ Note(ok, tag) == bad' = IF ok THEN bad ELSE bad \cup {tag}
 \* Cache.mu is read-held in these states (Close cannot start); "idle", and a client Release between
 \* its decrement and unRefExternal's RLock ("xdel": RLock + delete is one step, nothing but Close could
 \* tell the difference), are outside
+ForceClosing == \E u \in Threads : th[u].f
 RLocked(t) == th[t].pc \notin {"idle", "xdel"}
 
 \* ---- ref-- ; reaching zero leads to the delete step `del`, then to `next`
@@ -185,7 +190,10 @@ BucketDelete(t) ==
                    /\ UNCHANGED <<hnd, dels, mode, lruq, cap, nvid, nd>>
               ELSE /\ SetTh(t, Goto(t, th[t].ret))
                    /\ UNCHANGED <<cur, vals, hnd, dels, mode, bad, node, lruq, cap, nvid, nd>>
-       ELSE IF AtomicFin
+       ELSE IF RecheckClosed /\ n.ref # 0
+              THEN /\ SetTh(t, Goto(t, th[t].ret))
+                   /\ UNCHANGED <<cur, vals, hnd, dels, mode, bad, node, lruq, cap, nvid, nd>>
+            ELSE IF AtomicFin
               THEN Finalizer(t, k, n.val, th[t].ret)
               ELSE /\ SetTh(t, [th[t] EXCEPT !.pc = "xfin", !.fv = n.val])     \* read n.value ...
                    /\ UNCHANGED <<cur, vals, hnd, dels, mode, bad, node, lruq, cap, nvid, nd>>
@@ -283,7 +291,7 @@ GetReturn(t) ==
   /\ UNCHANGED <<cur, dels, mode, node, lruq, cap, nvid, nd>>
 \* ---------------------------------------------------------------- Handle.Release (client)
 Release(t) ==
-  /\ th[t].pc = "idle" /\ th[t].h
+  /\ th[t].pc = "idle" /\ th[t].h /\ (CloseExcl => ~ForceClosing)
   /\ DoRelBegin(t) /\ Note(OkRelBegin(t), "release")
   /\ LET k == th[t].hk IN
      /\ node' = [node EXCEPT ![k].ref = @ - 1]
@@ -345,7 +353,7 @@ EvictAllStep(t) ==
   /\ UNCHANGED <<cur, vals, hnd, dels, mode, bad, node, cap, nvid, nd>>
 \* ---------------------------------------------------------------- SetCapacity(c)
 SetCapacity(t, c) ==
-  /\ "setcap" \in Ops /\ th[t].pc = "idle" /\ c \in Caps /\ c # cap
+  /\ "setcap" \in Ops /\ th[t].pc = "idle" /\ c \in Caps /\ c # cap /\ (CloseExcl => ~ForceClosing)
   /\ cap' = c /\ lruq' = Kept(lruq, c)
   /\ SetTh(t, [th[t] EXCEPT !.pc = "pend", !.pend = Spilled(lruq, c), !.ret = "idle"])
   /\ UNCHANGED <<cur, vals, hnd, dels, mode, bad, node, nvid, nd>>
@@ -353,6 +361,7 @@ SetCapacity(t, c) ==
 CloseStart(t, force) ==       \* under the write lock: no call other than Handle.Release is in flight
   /\ (IF force THEN "closeforce" ELSE "close") \in Ops
   /\ th[t].pc = "idle" /\ mode = "open" /\ \A u \in Threads : ~RLocked(u)
+  /\ CloseExcl => \A u \in Threads : th[u].pc = "idle"
   /\ DoClose(force) /\ Note(OkClose, "close")
   /\ SetTh(t, [th[t] EXCEPT !.pc = "c1", !.ks = {k \in Keys : node[k].ex}, !.f = force])
   /\ UNCHANGED <<cur, vals, hnd, dels, node, lruq, cap, nvid, nd>>
